@@ -240,7 +240,7 @@ def run(ctx):
                         check_series(ctx, VG, x, None, hz, True, cid)
     # 3. random
     k = 0
-    while ctx.time_left() > 0 and k < (4000 if ctx.thorough else 400):
+    while ctx.time_left() > 0 and k < (60000 if ctx.thorough else 400):
         k += 1
         if not ctx.mine(k):
             continue
